@@ -165,10 +165,10 @@ def gen_params(rng, tier):
 
 
 def known_filter(p, info):
-    """F4: integer seed + weight_offset + inverse-CDF sampled weights (laplacian / cauchy kernels)."""
+    """F4: integer seed + weight_offset (offsets re-read the uniforms that produced the weights), any kernel."""
     ids = known.listed(PID)
     if 'F4' in ids and p.get('test') == 'unbiased' and p.get('seedtype') == 'int' and p.get('method') == 'weight_offset' \
-            and p.get('kernel') in ('laplacian', 'cauchy') and 'biased' in (info or {}).get('what', ''):
+            and 'biased' in (info or {}).get('what', ''):
         return 'F4'
     return None
 
